@@ -223,3 +223,14 @@ Proof. exact bulk_meta_refetched. Qed.
 Theorem bulk_store_only_cacheable_answers : forall Q m ev acc c a,
   (forall v, ~ In (a, v, true) acc) -> get (store_bulk Q m ev c acc) a = get c a.
 Proof. exact store_bulk_untouched. Qed.
+
+(* Configuration loader: the refresh_before of a cache is in force for the TileManager of every grid of the cache -
+   one manager per grid, each with the cache's rule and hence the cache's threshold (all theorems above then apply
+   to every grid). *)
+Theorem every_grid_of_a_cache_has_the_refresh_rule : forall Q rb fs grids m ev,
+  In m (cache_managers rb fs grids) ->
+  expire_timestamp Q m ev = match rb with Some rc => before_timestamp_from_options Q rc ev | None => ThrNone end.
+Proof. exact cache_managers_threshold. Qed.
+
+Theorem one_manager_per_grid : forall rb fs grids, length (cache_managers rb fs grids) = length grids.
+Proof. exact cache_managers_length. Qed.
